@@ -42,7 +42,11 @@ def inspect_recursive(value: Any, seen_values: list) -> str:
     if value is None or value is Undefined or isinstance(value, (bool, float, complex)):
         return repr(value)
     if isinstance(value, (int, str, bytes, bytearray)):
-        return trunc_str(repr(value))
+        try:
+            s = repr(value)
+        except ValueError:  # integer exceeds the limit for decimal string conversion
+            s = hex(value)
+        return trunc_str(s)
     if len(seen_values) < max_recursive_depth and value not in seen_values:
         # check if we have a custom inspect method
         inspect_method = getattr(value, "__inspect__", None)
